@@ -15,6 +15,7 @@ type GenCfg struct {
 	NoRpcs      bool
 	NoSubmods   bool
 	NoSubNodes  bool // submodules define no data nodes of their own
+	NoTopMisc   bool // only containers at the top level of a module
 	NoWhenMust  bool
 	NoFeatures  bool
 	ConfigFalse bool // allow config false subtrees
@@ -486,6 +487,10 @@ func (g *G) GenSet() []*Mod {
 			n.Kids = g.kids(sc, cfg.MaxDepth-1, n.Config == "false")
 			m.Nodes = append(m.Nodes, n)
 		}
+		// further top-level nodes of any kind (leaf, leaf-list, list, choice, uses ...) after the containers
+		if !cfg.NoTopMisc && g.Chance(1, 3, "topmisc") {
+			m.Nodes = append(m.Nodes, g.kids(sc, 2, false)...)
+		}
 		if !cfg.NoAugments && i > 0 && len(m.Imports) > 0 && g.Chance(1, 2, "augment") {
 			imp := m.Imports[g.Pick(len(m.Imports), "augimp")]
 			var target *Mod
@@ -496,7 +501,7 @@ func (g *G) GenSet() []*Mod {
 			}
 			if target != nil && len(target.Nodes) > 0 {
 				tn := target.Nodes[g.Pick(len(target.Nodes), "augtarget")]
-				if len(tn.IfFeatures) == 0 && tn.When == "" {
+				if tn.Kind == "container" && len(tn.IfFeatures) == 0 && tn.When == "" {
 					a := &Augment{Target: "/" + imp.Prefix + ":" + tn.Name}
 					a.Kids = []*Node{g.leaf(sc, tn.Config == "false", g.id("aug"))}
 					a.Kids[0].Mandatory = ""
@@ -533,7 +538,7 @@ func (g *G) GenSet() []*Mod {
 			}
 			if len(target.Nodes) > 0 {
 				tn := target.Nodes[g.Pick(len(target.Nodes), "subaugtarget")]
-				if len(tn.IfFeatures) == 0 && tn.When == "" {
+				if tn.Kind == "container" && len(tn.IfFeatures) == 0 && tn.When == "" {
 					a := &Augment{Target: "/" + tpfx + ":" + tn.Name}
 					a.Kids = []*Node{g.leaf(ssc, tn.Config == "false", g.id("saug"))}
 					a.Kids[0].Mandatory = ""
